@@ -147,6 +147,9 @@ def run(res, tier):
     for cls in TSM:
         c12.no_tree_derived_state(facts, cls, res, R="C09.4.stateless-executor")
     stateful = len(res.violations) > before
+    res.rule("C09.5 both trees hold all their particles whatever the other tree looks like: the automatic block size of the target/source tree is clamped to >= 1 for each tree (a size of 0 builds a tree without groups - every target then misses every source of that tree)")
+    import c08
+    c08.block_size_positive(facts, res, R="C09.5.block-size-positive", only=("EstimateTsm",))
     n = 0
     classes = list(TSM)
     for cls in classes:
@@ -168,6 +171,13 @@ def run(res, tier):
     for fn in facts.methods_of("TbfOpenmpAlgorithmTsm"):
         ntasks += omp.check_capture_lifetime(facts, fn, res, pid_rule="C09.3")
     res.floor("C09.3", ntasks, 6, "omp tasks in the target/source executor")
+    # one creator: near and far field tasks of a target group accumulate into the same particle results; their depend clauses order
+    # them only if all of them are generated by the same construct (rule C03.e)
+    sub_e = tbf.Result("C03")
+    c03.join_rule(facts, ex, sub_e, "omp")
+    for v in sub_e.violations:
+        res.violation("C09.3.join", v["file"], v["function"], v["key"], v["line"], v["msg"])
+    res.instance("C09.3.join", "TbfOpenmpAlgorithmTsm::execute", "src/algorithms/openmp/tbfopenmpalgorithmtsm.hpp", "%d stage calls inside one creating construct of the joining region" % len([i for i in sub_e.instances if i["rule"] == "C03.e.join"]))
     # the slot table of the one-sided operator has no source result
     import coherence
     roles = coherence.ROLES["P2PTsm"]
